@@ -9,13 +9,15 @@ ID = "C16"
 META = {
     "rule": "states = algorithm instances: Deutsch-Jozsa on EVERY constant and EVERY balanced function of n input bits (lookup-table and DNF forms, "
             "Qint / bool / tuple argument), Bernstein-Vazirani on secret_oracle(n, s) for EVERY secret s plus hand-written dot products, Simon on "
-            "EVERY period s != 0 with three two-to-one functions each (lookup tables). The exact output distribution of the algorithm circuit on "
+            "EVERY period s != 0 with seven two-to-one functions each (five lookup tables with compact and spread value ranges, f(x)=min(x,x^s)+1 and a "
+            "conditional-xor form, both computed). The exact output distribution of the algorithm circuit on "
             "|0..0> (sparse exact simulation) must be: DJ p(0..0)=1 for constant, 0 for balanced; BV p(s)=1; Simon support = {y: y.s=0} uniform; "
             "decode_output of every outcome with non-zero probability reports it in the argument type. The same wrapper is also run on an ideal "
             "xor-oracle to tell a wrong wrapper from a wrong compiled black box. decode_counts is exercised on counts taken over ALL qubits (each logical outcome split over two raw strings of 40 shots) with discard_lower=60: aggregation must come first. Non-trivial = non-constant function / non-zero secret; distinct = "
             "distinct (algorithm, function) instances.",
     "bound": {"quick": "DJ n=1..3 (all 2+2, 2+6, 2+70 functions); BV n=2..4 all secrets (+n=1 bool; n=4 also with a nested tuple argument Tuple[Tuple[bool, Qint[2]], bool]); Simon n=2,3 all periods",
-              "thorough": "DJ n=4 all 12870 balanced functions; BV n=5; Simon n=4"},
+              "thorough": "DJ n=4 all 12870 balanced functions; BV n=5; Simon n=4; Simon n=3 with EVERY two-to-one function with 3-bit values "
+                          "(1 680 per period; quick: every such function on 2 bits and 32 affine value assignments per period on 3 bits)"},
     "assumptions": ["svsim.sparse_run is the meaning of the circuit", "a function whose compiled expressions do not denote the table written in its source is reported (the guarantee is about the source's function)"],
     "explanation": "states = algorithm circuits built by the real constructors on freshly compiled functions; transitions = basis outcomes compared.",
 }
@@ -48,7 +50,11 @@ def shards(tier):
             out.append({"alg": "bv", "n": n, "lo": lo, "hi": min(1 << n, lo + 4)})
     for n in ([2, 3] if tier == "quick" else [2, 3, 4]):
         for s in range(1, 1 << n):
-            out.append({"alg": "simon", "n": n, "s": s})
+            out.append({"alg": "simon", "n": n, "s": s, "tier": tier})
+            if n == 3 and tier == "thorough":
+                # EVERY two-to-one function with this period and 3-bit values (1 680 injective value assignments), in blocks
+                for lo in range(0, 1680, 120):
+                    out.append({"alg": "simon", "n": 3, "s": s, "tier": tier, "inj_lo": lo, "inj_hi": lo + 120})
     return out
 
 
@@ -95,8 +101,25 @@ def cases(shard):
             for f in forms:
                 yield {"alg": "bv", "n": n, "s": s, "form": f, "key": "bv n=%d secret=%d form=%s" % (n, s, f)}
     else:
-        for k in range(3):
+        if "inj_lo" in shard:
+            import itertools
+            for i, vals in enumerate(itertools.permutations(range(8), 4)):
+                if shard["inj_lo"] <= i < shard["inj_hi"]:
+                    yield {"alg": "simon", "n": 3, "s": shard["s"], "perm": "inj", "vals": list(vals),
+                           "key": "simon n=3 period=%d values of the 4 classes=%s" % (shard["s"], list(vals))}
+            return
+        for k in range(7):
             yield {"alg": "simon", "n": n, "s": shard["s"], "perm": k, "key": "simon n=%d period=%d f#%d" % (n, shard["s"], k)}
+        if n == 2:
+            import itertools
+            for vals in itertools.permutations(range(4), 2):   # every two-to-one function on 2 bits
+                yield {"alg": "simon", "n": 2, "s": shard["s"], "perm": "inj", "vals": list(vals),
+                       "key": "simon n=2 period=%d values of the 2 classes=%s" % (shard["s"], list(vals))}
+        if n == 3:
+            for a in (1, 3, 5, 7):                                # class index i -> (a*i + b) mod 8: 32 value assignments per period
+                for b in range(8):
+                    yield {"alg": "simon", "n": 3, "s": shard["s"], "perm": "inj", "vals": [(a * i + b) % 8 for i in range(4)],
+                           "key": "simon n=3 period=%d values of the 4 classes=%s" % (shard["s"], [(a * i + b) % 8 for i in range(4)])}
 
 
 def dist_of(alg):
@@ -188,6 +211,8 @@ def run_case(case):
             k = case["perm"]
             m = len(reps)
             perm = list(range(m))
+            if k == "inj":
+                perm = list(case["vals"])
             if k == 1:
                 perm = perm[::-1]
             elif k == 2:
@@ -195,7 +220,25 @@ def run_case(case):
             val = {rep: perm[i] for i, rep in enumerate(reps)}
             tab = [val[min(x, x ^ s)] for x in range(N)]
             w = 2 if max(tab) < 4 else 4
+            if k == "inj":
+                w = n
             src = "def tfun(x: Qint[%d]) -> Qint[%d]:\n    c = [%s]\n    return c[x]\n" % (n, w, ", ".join(str(v) for v in tab))
+            if k in (3, 4):
+                # tables with values spread over the whole n-bit range (the representative itself / an affine image of it)
+                tab = [min(x, x ^ s) if k == 3 else (min(x, x ^ s) * 3 + 1) % N for x in range(N)]
+                w = n
+                src = "def tfun(x: Qint[%d]) -> Qint[%d]:\n    c = [%s]\n    return c[x]\n" % (n, w, ", ".join(str(v) for v in tab))
+            elif k == 5:
+                # computed, not tabulated: f(x) = min(x, x ^ s) + 1
+                tab = [min(x, x ^ s) + 1 for x in range(N)]
+                w = n
+                src = "def tfun(x: Qint[%d]) -> Qint[%d]:\n    y = x ^ %d\n    return (x if x < y else y) + 1\n" % (n, w, s)
+            elif k == 6:
+                # computed: clear the lowest set bit of s by xoring s in when that bit of x is set
+                j = (s & -s).bit_length() - 1
+                tab = [(x ^ s) if (x >> j) & 1 else x for x in range(N)]
+                w = n
+                src = "def tfun(x: Qint[%d]) -> Qint[%d]:\n    return (x ^ %d) if x[%d] else x\n" % (n, w, s, j)
             qf = H.compile_src(src, "default", True)
             cols = [sum(((tab[r] >> j) & 1) << r for r in range(N)) for j in range(w)]
             if not denotes(qf, cols):
